@@ -23,9 +23,66 @@ def plain_bits(ba):
     return ba
 
 
+def cached(it, c, name):
+    """what a cell caches under `_hashes` / `_depths` / `_hash` (the state the property names), however the class stores it: a plain attribute, or a
+    property derived from another representation (per-level records ...) - read through the interpreter's attribute lookup"""
+    if not isinstance(c, Inst):
+        from .core import AnalysisError
+        raise AnalysisError(f'fixture: {vrepr(c)[:40]} is not a cell')
+    if name in c.attrs:
+        return c.attrs[name]
+    it = it or _LAST_IT[0]
+    try:
+        v = it.getattr(c, name)
+    except (Fail, RaiseEx) as e:
+        from .core import AnalysisError
+        raise AnalysisError(f'anchor lost: Cell.{name} (per-level hashes and depths cached at construction) cannot be read: {e}')
+    if name in ('_hashes', '_depths') and not isinstance(v, ListV):
+        items = it.iterate(v)
+        if items is None:
+            from .core import AnalysisError
+            raise AnalysisError(f'anchor lost: Cell.{name} is {vrepr(v)[:40]}, not a sequence')
+        v = ListV(list(items))
+    return v
+
+
+_LAST_IT = [None]
+
+
 def new_cell(it, bits, refs, type_=-1):
     """interpret the real constructor Cell(bits, refs, type_)"""
+    _LAST_IT[0] = it
     return it.construct(it.prog.cls('Cell'), [bits, ListV(list(refs)), K(type_)], {})
+
+
+def shadow_lookups(it, c):
+    """a forged cell answers get_hash / get_depth / hash from the forged per-level values themselves (index = number of significant levels below
+    the asked one), whatever representation the class's own methods read - so the fixture does not depend on it"""
+    def mask_of():
+        lm = c.attrs.get('level_mask')
+        m = it.getattr(lm, 'mask') if isinstance(lm, Inst) else None
+        if m is None or not (isinstance(m, K) and isinstance(m.v, int)):
+            try:
+                m = it.getattr(lm, '_m')
+            except (Fail, RaiseEx):
+                m = K(0)
+        return m.v if isinstance(m, K) and isinstance(m.v, int) else 0
+
+    def pick(which):
+        def f(it_, args, kw, node):
+            lvl = args[0] if args else kw.get('lvl_mask', kw.get('level', K(3)))
+            if not (isinstance(lvl, K) and isinstance(lvl.v, int)):
+                raise Fail('forged cell asked for a symbolic level')
+            idx = bin(mask_of() & ((1 << lvl.v) - 1)).count('1')
+            items = c.attrs[which].items
+            return items[min(idx, len(items) - 1)]
+        return Native(f, f'forged.{which}')
+    for nm in ('_hashes', '_depths'):
+        if nm not in c.attrs:
+            c.attrs[nm] = cached(it, c, nm)
+    c.attrs['get_hash'] = pick('_hashes')
+    c.attrs['get_depth'] = pick('_depths')
+    c.attrs['hash'] = c.attrs['_hashes'].items[-1]
 
 
 def leaf(it, n=0, name='leaf'):
@@ -40,7 +97,9 @@ def forge_ordinary_child(it, i, depth=None, hash_=None):
     c.attrs['_hash'] = h
     d = depth if depth is not None else atom(f'd{i}')
     c.attrs['_depths'] = ListV([d if not isinstance(d, int) else K(d)])
-    return reforge(it, c)
+    reforge(it, c)
+    shadow_lookups(it, c)
+    return c
 
 
 def reforge(it, c):
